@@ -249,6 +249,104 @@ let run_conc (f : string list) (impl : string) (variant : string) : string =
     with Too_big -> "conc TOOBIG" | Failure m -> "conc " ^ m)
   | _ -> "badline"
 
+(* ---------------------------------------------------------------- concurrent registration
+   reg <cap> <rounds> <noise> <pre> <name@kind@nlabels@prog>...
+   Registration steps touch only the registry map, metric steps only the metric object, and a goroutine's metric
+   operations come after its own registration.  As long as all "ok" registrants of a name share one object (which is
+   what the registration machine does, theorem C20_reg_unique) the reachable quiescent observations of a name are
+   exactly: (reachable outcome of the registration machine) x (reachable observation of the metric machine run with the
+   programs of the goroutines that were told ok).  An implementation that hands out two objects for one name produces
+   observations (reg=2,0 / class O / lost>0) outside this set. *)
+let reach_cache : (string, (string, unit) Hashtbl.t) Hashtbl.t = Hashtbl.create 16
+let reachable_memo c progs limit =
+  let k = Marshal.to_string (c, progs) [Marshal.No_sharing] in
+  match Hashtbl.find_opt reach_cache k with
+  | Some r -> r
+  | None -> let r = reachable c [] progs limit in Hashtbl.add reach_cache k r; r
+
+let show_rres = function RROk _ -> "ok" | RRErrType -> "etype" | RRErrSchema -> "eschema" | RRPanic -> "panic"
+let kind_tok = function KCounter -> "c" | KGauge -> "g" | KHist -> "h"
+
+(* all quiescent outcomes of the registration machine: (result per thread, object the registry ends up with) *)
+let reg_outcomes (v : variant) (pre : ropts option) (os : ropts list) : ((rres list * robj option), unit) Hashtbl.t =
+  let s0 = match pre with
+    | None -> rshared0
+    | Some o -> let (s1, t1) = rstep v rshared0 (rthread0 o) in let (s2, _) = rstep v s1 t1 in s2 in
+  let x0 = { rsh = s0; rths = List.map rthread0 os } in
+  let name = (List.hd os).ro_name in
+  let visited = Hashtbl.create 256 and finals = Hashtbl.create 16 in
+  let rec go x =
+    let k = Marshal.to_string x [Marshal.No_sharing] in
+    if not (Hashtbl.mem visited k) then begin
+      Hashtbl.add visited k ();
+      if rdone_all x then begin
+        let res = List.map (fun th -> match th.rt_pc with RPDone r -> r | _ -> RRPanic) x.rths in
+        let obj = match map_load x.rsh.rmap name with
+          | Some id -> nth_error x.rsh.robjs id | None -> None in
+        Hashtbl.replace finals (res, obj) ()
+      end else
+        List.iteri (fun i th -> match th.rt_pc with RPDone _ -> () | _ -> go (rsys_step v x (nat_of_int i))) x.rths
+    end in
+  go x0; finals
+
+let split_on_str sep s = Str.split (Str.regexp_string sep) s
+
+let run_reg (f : string list) (impl : string) (variant : string) : string =
+  match f with
+  | _ :: cap :: _rounds :: _noise :: pre :: ths ->
+    let capi = int_of_string cap in
+    let capeff = if capi = 0 then 10000 else capi in
+    let parsed = List.mapi (fun i tok -> match String.split_on_char '@' tok with
+        | [name; kind; nl; prog] -> (i, name, kind, int_of_string nl, parse_prog prog)
+        | _ -> failwith "bad reg thread") ths in
+    let names = List.sort_uniq compare (List.map (fun (_, n, _, _, _) -> n) parsed) in
+    let limit = 3_000_000 in
+    let rv = if variant = "defective" then Defective else Repaired in
+    (try
+      let sets = List.map (fun name ->
+          let mine = List.filter (fun (_, n, _, _, _) -> n = name) parsed in
+          let opts_of (_, n, k, nl, _) = { ro_name = n_of_int (Char.code n.[0]); ro_kind = kind_of k; ro_nl = nat_of_int nl } in
+          let os = List.map opts_of mine in
+          let preo = if pre = "1" then Some (List.hd os) else None in
+          let outs = reg_outcomes rv preo os in
+          let set : (string, unit) Hashtbl.t = Hashtbl.create 64 in
+          Hashtbl.iter (fun (res, obj) () ->
+              let tfield gi r extra = "T" ^ string_of_int gi ^ "=" ^ show_rres r ^ (if extra = "" || extra = "-" then "" else "." ^ extra) in
+              match obj with
+              | None ->
+                let ts = List.map2 (fun (gi, _, _, _, _) r -> tfield gi r "") mine res in
+                Hashtbl.replace set (name ^ ":reg=0,1;m=;c=0;d=0;u=0;s=0;lost=0;" ^ String.concat ";" ts) ()
+              | Some o ->
+                let progs = List.map2 (fun (_, _, _, _, p) r -> match r with RROk _ -> p | _ -> []) mine res in
+                let mk v = mk_cfg (kind_tok o.rb_kind) capi (int_of_nat o.rb_nl) [z_of_int 1; z_of_int 5] v in
+                let rr = reachable_memo (mk "repaired") progs limit in
+                let rd = reachable_memo (mk "defective") progs limit in
+                let add o' =
+                  (* o' = m=..;c=..;d=..;u=..;s=..;lost=..;S=-;T0=..;T1=.. with local thread numbers *)
+                  let fields = String.split_on_char ';' o' in
+                  let head = List.filter (fun x -> not (String.length x > 1 && (x.[0] = 'T' || x.[0] = 'S') && String.contains x '=' && x.[1] <> '=' || (String.length x > 1 && x.[0] = 'S' && x.[1] = '='))) fields in
+                  let head = List.filter (fun x -> not (String.length x > 1 && x.[0] = 'T')) head in
+                  let tvals = List.filter_map (fun x ->
+                      if String.length x > 1 && x.[0] = 'T' then
+                        let e = String.index x '=' in
+                        Some (int_of_string (String.sub x 1 (e - 1)), String.sub x (e + 1) (String.length x - e - 1))
+                      else None) fields in
+                  let ts = List.mapi (fun li ((gi, _, _, _, _), r) ->
+                      tfield gi r (try List.assoc li tvals with Not_found -> "")) (List.combine mine res) in
+                  Hashtbl.replace set (name ^ ":reg=1,1;" ^ String.concat ";" (head @ ts)) () in
+                Hashtbl.iter (fun o' () -> add o') rr;
+                Hashtbl.iter (fun o' () -> if variant = "defective" || monitor capeff o' = [] then add o') rd) outs;
+          set) names in
+      let body = if String.length impl >= 4 && String.sub impl 0 4 = "reg " then String.sub impl 4 (String.length impl - 4) else impl in
+      let obs = List.filter (fun s -> s <> "") (List.map String.trim (split_on_str " | " body)) in
+      if obs = [] then "reg NOOBS(" ^ impl ^ ")" else
+      let ok o =
+        let parts = List.map String.trim (split_on_str " # " o) in
+        List.length parts = List.length sets && List.for_all2 (fun p set -> Hashtbl.mem set p) parts sets in
+      "reg " ^ String.concat " | " (List.map (fun o -> if ok o then o else "INADMISSIBLE(" ^ o ^ ")") obs)
+    with Too_big -> "reg TOOBIG" | Failure m -> "reg " ^ m)
+  | _ -> "badline"
+
 let () =
   let lines = read_lines Sys.argv.(1) in
   let impl = if Array.length Sys.argv > 2 && Sys.argv.(2) <> "-" then read_lines Sys.argv.(2) else [] in
@@ -262,6 +360,7 @@ let () =
          | [] -> ""
          | "seq" :: _ -> run_seq f variant
          | ("conc" | "rconc") :: _ -> run_conc f il variant
+         | ("reg" | "rreg") :: _ -> run_reg f il variant
          | _ -> "badline")
       with e -> "DRIVERERROR " ^ Printexc.to_string e in
     print_endline out) lines
